@@ -14,6 +14,8 @@ Correspondence (real cspuz.generator.* vs the Lean model Model/Generator.lean th
      `random.seed` (no model: reproducibility only).
 Search: independent plain-Python oracles written from the property text.
 """
+import os
+import sys
 import copy
 import math
 import random as pyrandom
@@ -1042,6 +1044,70 @@ def check_generate(spec, mock, seed):
     return None
 
 
+_XPROC = r"""
+import sys, random, json
+sys.path.insert(0, sys.argv[1])
+import cspuz.generator.srandom as srandom
+from cspuz.generator import ArrayBuilder2D, Choice, build_neighbor_generator, SegmentationBuilder2D
+random.seed(int(sys.argv[2]))
+out = []
+for cfg in json.loads(sys.argv[3]):
+    srandom.use_deterministic_prng(True, cfg["seed"])
+    if cfg["kind"] == "array":
+        b = ArrayBuilder2D(cfg["h"], cfg["w"], cfg["choice"], default=cfg["default"], symmetry=cfg["symmetry"],
+                           disallow_adjacent=cfg["adj"], use_move=cfg["move"])
+        pat = [b, Choice(cfg["choice"], cfg["default"])]
+    else:
+        pat = SegmentationBuilder2D(3, 3, min_block_size=2)
+    init, gen = build_neighbor_generator(pat)
+    cur = init
+    for step in range(3):
+        nb = []
+        for k, p in enumerate(gen(cur)):
+            nb.append(repr(p))
+            if k >= 7:
+                break
+        out.append(nb)
+        if nb:
+            cur = eval(nb[0])
+print(json.dumps(out))
+"""
+
+
+def check_cross_process():
+    """Same XorShift seed in fresh interpreters that differ in PYTHONHASHSEED and random.seed: identical candidate sequences."""
+    import json as _json
+    import subprocess
+    cfgs = []
+    for seed in (0, 12345):
+        for sym in (False, True):
+            for move in (False, True):
+                cfgs.append({"kind": "array", "seed": seed, "h": 3, "w": 4, "choice": ["..", "u1", "d2", "l3", "r4", "u2"], "default": "..",
+                             "symmetry": sym, "adj": False, "move": move})
+                cfgs.append({"kind": "array", "seed": seed, "h": 2, "w": 3, "choice": [0, 1, 2, 7], "default": 0,
+                             "symmetry": sym, "adj": True, "move": move})
+        cfgs.append({"kind": "seg", "seed": seed})
+    outs = []
+    for hs, ps in (("1", 1), ("2", 2), ("12345", 99)):
+        env = dict(os.environ)
+        env["PYTHONHASHSEED"] = hs
+        p = subprocess.run([sys.executable, "-c", _XPROC, core.REPO, str(ps), _json.dumps(cfgs)], env=env,
+                           stdout=subprocess.PIPE, stderr=subprocess.PIPE, text=True, timeout=300)
+        if p.returncode != 0:
+            return ("cross-process probe failed: " + p.stderr[-300:], {"kind": "cross-process"})
+        outs.append(_json.loads(p.stdout))
+    for k in range(1, len(outs)):
+        if outs[k] != outs[0]:
+            steps_per = 3
+            for i, (a, b) in enumerate(zip(outs[0], outs[k])):
+                if a != b:
+                    cfg = cfgs[i // steps_per]
+                    return ("with use_deterministic_prng(True, %d) the candidate sequence of %r differs between two fresh interpreters that "
+                            "differ only in PYTHONHASHSEED / random.seed(): %s vs %s" % (cfg["seed"], cfg, a[:2], b[:2]),
+                            {"kind": "cross-process", "config": cfg})
+    return None
+
+
 def search(ctx, why):
     found = {}
 
@@ -1114,6 +1180,11 @@ def search(ctx, why):
         d = _run(check_generate, spec, mock, seed=i)
         if d:
             add("generate:" + "-".join(d.split(" ")[1:3]), d, {"kind": "generate", "spec": _jsonable(spec), "seed": i, "mock": mock.__dict__})
+    # reproducibility ACROSS PROCESSES: same deterministic seed, different PYTHONHASHSEED / random.seed -> same candidates
+    d = check_cross_process()
+    ctx.count("search:cross-process")
+    if d:
+        add("reproducibility:cross-process", d[0], d[1])
     # segmentation
     for i, kw in enumerate(SEG_CONFIGS):
         for seed in range(3):
@@ -1153,6 +1224,9 @@ def _spec_from_json(j):
 
 
 def replay(ctx, data):
+    if data.get("kind") == "cross-process":
+        d = check_cross_process()
+        return Finding("reproducibility:cross-process", d[0], d[1]) if d else None
     k = data.get("kind")
     if k == "randint":
         d = check_randint(data["a"], data["b"], data["seed"])
